@@ -125,26 +125,40 @@ func (r *refRegistry) checkQueries(c godi.Collection) *Failure {
 	if len(sl) != len(r.descs) {
 		return fail("C17", "queries", "toslice-len", "ToSlice() has %d entries, reference %d", len(sl), len(r.descs))
 	}
-	for i, d := range r.descs {
-		g := sl[i]
+	// compared as multisets: the statement does not promise an order
+	want := map[string]int{}
+	for _, d := range r.descs {
+		if d.Void {
+			want[fmt.Sprintf("void|%s", lifeName(d.Life))]++
+			continue
+		}
+		k := d.Ident.Key
+		if d.Ident.Group != "" {
+			k = "#member"
+		}
+		want[fmt.Sprintf("%v|%s|%s|%s", kit.RType(d.Ident.T), k, d.Ident.Group, lifeName(d.Life))]++
+	}
+	for i, g := range sl {
 		if g == nil {
 			return fail("C17", "queries", "toslice-nil", "ToSlice()[%d] is nil", i)
 		}
-		if int(g.Lifetime) != d.Life {
-			return fail("C17", "queries", "toslice-lifetime", "ToSlice()[%d] lifetime %v, reference %s", i, g.Lifetime, lifeName(d.Life))
+		var key string
+		switch {
+		case g.VoidReturn:
+			key = fmt.Sprintf("void|%s", lifeName(int(g.Lifetime)))
+		case g.Group != "":
+			key = fmt.Sprintf("%v|#member|%s|%s", g.Type, g.Group, lifeName(int(g.Lifetime)))
+		default:
+			ks := ""
+			if g.Key != nil {
+				ks = fmt.Sprint(g.Key)
+			}
+			key = fmt.Sprintf("%v|%s||%s", g.Type, ks, lifeName(int(g.Lifetime)))
 		}
-		if d.Void {
-			continue
+		if want[key] == 0 {
+			return fail("C17", "queries", "toslice-content", "ToSlice() lists %s, which the reference registry does not hold (reference: %v)", key, want)
 		}
-		if g.Type != kit.RType(d.Ident.T) || g.Group != d.Ident.Group {
-			return fail("C17", "queries", "toslice-identity", "ToSlice()[%d] is %v group %q, reference %s", i, g.Type, g.Group, d.Ident)
-		}
-		if d.Ident.Key != "" && g.Key != any(d.Ident.Key) {
-			return fail("C17", "queries", "toslice-key", "ToSlice()[%d] key %v, reference %q", i, g.Key, d.Ident.Key)
-		}
-		if d.Ident.Key == "" && d.Ident.Group == "" && g.Key != nil {
-			return fail("C17", "queries", "toslice-key", "ToSlice()[%d] key %v, reference none", i, g.Key)
-		}
+		want[key]--
 	}
 	return nil
 }
